@@ -30,6 +30,10 @@ def main(argv=None):
     args = ap.parse_args(argv)
     seed = int(os.environ.get("VERIF_SEED", "0") or 0)
     if args.tier == "thorough":
+        # the thorough selection (every fixture, 200 layout windows, every rule) is fixed: it does not rotate with VERIF_SEED, so what it
+        # explores on the unchanged tree is exactly what was run and triaged when known_findings.json was committed
+        os.environ["VERIF_SEED"] = "0"
+        seed = 0
         os.environ.setdefault("SX_CROSSCHECK", "1")  # thorough: a sample of discharged VCs is re-decided by two other solver binaries
 
     from . import runner
